@@ -85,11 +85,17 @@ example :
   intro self e
   exact ⟨by decide, by decide, rfl⟩
 
-/-! ## (a) parse rules
+/-! ## (a) parse rules -/
 
-`rules_preserve : ofPy a = .ok e → ∀ ρ, Expr.eval ρ e = evalPy ρ a` is planned, not proved
-(see `design.d/C08.md`); `ofPy` and `evalPy` are tied to the real rules and to CPython by the
-`rules` and `expr` correspondence streams. -/
+open AasVerif.PyAst in
+/-- **rules_preserve.** Whatever `ast_node_to_our_node` accepts means, as an expression of our
+tree evaluated by `Expr.eval`, exactly what CPython computes for the source expression
+(`evalPy`: chained comparisons, comprehension conditions, unary minus, `not in`, … included),
+in every environment — value or exception.  (Proved on the fixed rules: a comprehension with
+`if` conditions is rejected.) -/
+theorem rules_preserve (a : PyAst) (e : Expr) (h : ofPy a = .ok e) (ρ : Env) :
+    Expr.eval ρ e = evalPy ρ a :=
+  (rules_all a).1 e h ρ
 
 open AasVerif.PyAst in
 /-- The dispatch order the model bakes in is the order of `_CHAIN_OF_RULES` in the source. -/
